@@ -49,6 +49,35 @@ def fam_reads(seed, i, tier):
 FAMILIES = {"core": fam_core, "crash": fam_crash, "reads": fam_reads}
 
 
+def gen_spec_behaviours(cfgname, workdir, num, depth, seed, voters):
+    """TLC -simulate on Gen.tla: behaviours of Raft.tla with the action, its arguments and the
+    observable projection of every node after each step, replayed on real nodes."""
+    import shutil, subprocess
+    d = os.path.join(workdir, "gen-" + cfgname)
+    out = os.path.join(d, "out")
+    os.makedirs(out, exist_ok=True)
+    driver.stage_spec(d, ["Raft.tla", "Gen.tla"])
+    with open(os.path.join(driver.SPEC, cfgname + ".cfg")) as f:
+        cfg = f.read().replace("OUTDIR", out)
+    with open(os.path.join(d, "Gen.cfg"), "w") as f:
+        f.write(cfg)
+    r = subprocess.run(driver.tlc_cmd(["-Xmx3g"]) + ["-workers", "1", "-metadir", os.path.join(d, "md"), "-config", "Gen.cfg",
+                                                     "-simulate", "num=%d" % num, "-depth", str(depth), "-seed", str(seed), "Gen.tla"],
+                       cwd=d, capture_output=True, text=True, timeout=900)
+    if "Error:" in r.stdout and "is violated" in r.stdout:
+        raise NoVerdict("simulation of %s found a design-level counterexample:\n%s" % (cfgname, r.stdout[-3000:]))
+    scs = []
+    for i, fn in enumerate(sorted(glob.glob(os.path.join(out, "t*.json")))):
+        with open(fn) as f:
+            h = json.load(f)
+        if len(h) < 4:
+            continue
+        scs.append({"name": "sim-%s-%d-%d" % (cfgname, seed, i), "family": "sim", "voters": voters, "controlled": True,
+                    "auto": False, "heal": True, "heal_et": 60, "spec": h})
+    shutil.rmtree(os.path.join(d, "md"), ignore_errors=True)
+    return scs
+
+
 def corpus(names):
     """committed schedules (attack schedules and regression witnesses)"""
     out = []
@@ -67,13 +96,16 @@ def corpus(names):
 
 def scen_stats(evs):
     st = {"leaders": set(), "crashes": 0, "applies": 0, "appliers": set(), "truncates": 0, "ok_writes": 0, "ok_reads": 0,
-          "votes": 0, "cand_terms": {}, "events": len(evs), "restarts": 0, "nonleader_reads": 0, "ae_rejects": 0}
+          "votes": 0, "cand_terms": {}, "events": len(evs), "restarts": 0, "nonleader_reads": 0, "ae_rejects": 0,
+          "spec_steps": 0, "spec_matched": 0, "spec_drift": 0}
     for e in evs:
         ev = e["ev"]
         if ev == "status" and e["role"] == 0:
             st["leaders"].add((e["node"], e["term"]))
         elif ev == "crash":
             st["crashes"] += 1
+        elif ev == "spec_done":
+            st["spec_steps"], st["spec_matched"], st["spec_drift"] = e["steps"], e["matched"], e["drift"]
         elif ev == "restart":
             st["restarts"] += 1
         elif ev == "apply":
@@ -112,27 +144,29 @@ RULES = {
 # ------------------------------------------------------------------------------------------
 
 PROPS = {
-    "C01": dict(fams=[("core", 3), ("crash", 2)], corpus=["core", "crash"], mc="MC_core3"),
-    "C02": dict(fams=[("core", 3), ("crash", 2)], corpus=["core", "crash"], mc="MC_core3"),
-    "C03": dict(fams=[("core", 4), ("crash", 1)], corpus=["core"], mc="MC_core3"),
-    "C04": dict(fams=[("crash", 5)], corpus=["crash"], mc="MC_crash3"),
+    "C01": dict(fams=[("core", 3), ("crash", 2)], corpus=["core", "crash"], mc="MC_core3", mc_deep="MC_core3_deep", gen=[("Gen_core3", ["a", "b", "c"], 40)]),
+    "C02": dict(fams=[("core", 3), ("crash", 2)], corpus=["core", "crash"], mc="MC_core3", mc_deep="MC_core3_deep", gen=[("Gen_core3", ["a", "b", "c"], 40)]),
+    "C03": dict(fams=[("core", 4), ("crash", 1)], corpus=["core"], mc="MC_core3", mc_deep="MC_core3_deep", gen=[("Gen_core3", ["a", "b", "c"], 40)]),
+    "C04": dict(fams=[("crash", 5)], corpus=["crash"], mc="MC_crash3", mc_deep="MC_crash3_deep"),
     "C05": dict(fams=[("reads", 5)], corpus=["reads"], mc="MC_reads"),
-    "C06": dict(fams=[("core", 3), ("crash", 2)], corpus=["core", "crash"], mc="MC_core3"),
-    "C07": dict(fams=[("core", 3), ("crash", 2)], corpus=["core", "crash"], mc="MC_core3"),
-    "C08": dict(fams=[("core", 2), ("crash", 3)], corpus=["core", "crash"], mc="MC_crash3"),
-    "C14": dict(fams=[("crash", 5)], corpus=["crash"], mc="MC_crash3"),
+    "C06": dict(fams=[("core", 3), ("crash", 2)], corpus=["core", "crash"], mc="MC_core3", mc_deep="MC_core3_deep", gen=[("Gen_core3", ["a", "b", "c"], 40)]),
+    "C07": dict(fams=[("core", 3), ("crash", 2)], corpus=["core", "crash"], mc="MC_core3", mc_deep="MC_core3_deep", gen=[("Gen_core3", ["a", "b", "c"], 40)]),
+    "C08": dict(fams=[("core", 2), ("crash", 3)], corpus=["core", "crash"], mc="MC_crash3", mc_deep="MC_crash3_deep"),
+    "C14": dict(fams=[("crash", 5)], corpus=["crash"], mc="MC_crash3", mc_deep="MC_crash3_deep"),
 }
 
 TIER = {"quick": dict(unit=12, mc_timeout=60), "thorough": dict(unit=400, mc_timeout=1500)}
 
 
-def gen_scenarios(prop, tier, seed):
+def gen_scenarios(prop, tier, seed, workdir):
     spec = PROPS[prop]
     unit = TIER[tier]["unit"]
     scs = corpus(spec.get("corpus", []))
     for fam, w in spec["fams"]:
         for i in range(unit * w):
             scs.append(FAMILIES[fam](seed, i, tier))
+    for cfgname, voters, depth in spec.get("gen", []):
+        scs += gen_spec_behaviours(cfgname, workdir, unit * 4, depth, seed, voters)
     return scs
 
 
@@ -145,7 +179,14 @@ def run_check(prop, tier, seed, keep=False):
         shutil.rmtree(workdir)
     os.makedirs(workdir)
     driver.build_harness()
-    scs = gen_scenarios(prop, tier, seed)
+    from concurrent.futures import ThreadPoolExecutor
+    mc_future = None
+    mcname = spec.get("mc_deep") if tier == "thorough" and spec.get("mc_deep") else spec.get("mc")
+    if mcname and os.path.exists(os.path.join(driver.SPEC, mcname + ".cfg")):
+        mcmod = spec.get("mc_module", "MC_core3")
+        mc_pool = ThreadPoolExecutor(max_workers=1)
+        mc_future = mc_pool.submit(driver.model_check, mcname, workdir, TIER[tier]["mc_timeout"], max(2, driver.NPROC // 2), ("Raft.tla",), None, 0, mcmod)
+    scs = gen_scenarios(prop, tier, seed, workdir)
     by_name = {s["name"]: s for s in scs}
     traces, aborts, leaks = driver.run_jobs(scs, workdir, seed)
     t_run = time.time() - t0
@@ -165,6 +206,7 @@ def run_check(prop, tier, seed, keep=False):
     rule_text, rule = RULES.get(prop, ("every scenario", lambda s: True))
     nontrivial, total_events, nscen = set(), 0, 0
     samples = []
+    spec_tot = {"steps": 0, "matched": 0, "drift": 0, "behaviours": 0, "first_drifts": []}
     for t in traces:
         cur, evs = None, []
 
@@ -175,6 +217,13 @@ def run_check(prop, tier, seed, keep=False):
             nscen += 1
             total_events += len(evs)
             st = scen_stats(evs)
+            if st["spec_steps"]:
+                spec_tot["behaviours"] += 1
+                spec_tot["steps"] += st["spec_steps"]
+                spec_tot["matched"] += st["spec_matched"]
+                spec_tot["drift"] += st["spec_drift"]
+                if st["spec_drift"] and len(spec_tot["first_drifts"]) < 3:
+                    spec_tot["first_drifts"] += [{"scenario": cur, "at": e["k"], "action": e["a"], "diffs": e["diffs"]} for e in evs if e["ev"] == "drift"][:1]
             if rule(st):
                 # distinct by schedule digest
                 dig = hashlib.sha256(json.dumps([e.get("s") for e in evs if e["ev"] == "step"], sort_keys=True).encode()).hexdigest()[:16]
@@ -189,13 +238,11 @@ def run_check(prop, tier, seed, keep=False):
                 cur, evs = e["sc"], []
             evs.append(e)
         flush()
-    # design-level model checking (time-boxed)
-    mc = None
-    if spec.get("mc") and os.path.exists(os.path.join(driver.SPEC, spec["mc"] + ".cfg")):
-        mc = driver.model_check(spec["mc"], workdir, TIER[tier]["mc_timeout"])
-        if mc["violated"]:
-            raise NoVerdict("design-level configuration %s reports a counterexample on the unchanged specification; "
-                            "it must be replayed on the code before it means anything:\n%s" % (spec["mc"], mc["out"][-3000:]))
+    # design-level model checking (started before the scenarios, joined here)
+    mc = mc_future.result() if mc_future else None
+    if mc and mc["violated"]:
+        raise NoVerdict("design-level configuration %s reports a counterexample on the unchanged specification; "
+                        "it must be replayed on the code before it means anything:\n%s" % (mc["cfg"], mc["out"][-3000:]))
     # verdict
     seen, viol = set(), []
     for b in rest:
@@ -226,6 +273,9 @@ def run_check(prop, tier, seed, keep=False):
         "aborts": len(aborts), "leaks": len(leaks),
         "recorder_mismatches": len(recorder), "warnings": len(warns),
         "known_finding_hits": {k: len(v) for k, v in hits.items()},
+        "spec_behaviours_replayed": spec_tot["behaviours"], "spec_steps_compared": spec_tot["steps"],
+        "spec_steps_matched": spec_tot["matched"], "conformance_drift_steps": spec_tot["drift"],
+        "conformance_first_drifts": spec_tot["first_drifts"],
         "checker_cmd": "tlc Monitors.tla (Props={%s}) over recorded traces; tlc %s" % (prop, spec.get("mc")),
     }
     if not cov["states"]:
@@ -239,6 +289,9 @@ def run_check(prop, tier, seed, keep=False):
     log("property=%s tier=%s seed=%d scenarios=%d nontrivial=%d events=%d run=%.0fs monitors=%.0fs mc=%s violations=%d" % (
         prop, tier, seed, nscen, len(nontrivial), total_events, t_run, t_mon,
         ("%d states%s" % (mc["states"], "" if mc["finished"] else " (time-boxed)")) if mc else "none", len(viol)))
+    if spec_tot["drift"]:
+        log("CONFORMANCE-DRIFT property-family=%s: %d of %d replayed specification steps left the real nodes in a state other than Raft.tla predicts; first: %s" % (
+            prop, spec_tot["drift"], spec_tot["steps"], json.dumps(spec_tot["first_drifts"][:1])[:600]))
     if recorder:
         b = recorder[0]
         log("RECORDER-MISMATCH %s in %s line %d: %s" % (b["c"], b["sc"], b["line"], b["d"][:200]))
